@@ -95,8 +95,9 @@ def install_locks(gf, s):
     return replaced
 
 
-def one_execution(prefix, plan, capacity):
-    """Run one schedule.  plan = list of filter texts, one per thread.  -> (scheduler, observation, problems)"""
+def one_execution(prefix, plan, capacity, calls=2):
+    """Run one schedule.  plan = list of filter texts, one per thread; every thread evaluates its filter `calls` times and then
+    fetches the compiled function.  -> (scheduler, observation, problems)"""
     import hszinc as hs
     from hszinc import grid_filter as gf
     gc.disable()
@@ -111,7 +112,7 @@ def one_execution(prefix, plan, capacity):
     def body(i):
         def run():
             f = plan[i]
-            for rep in range(2):
+            for rep in range(calls):
                 res = g.filter(f)
                 results[i].append(tuple(r['id'] for r in res))
             held[i].append(gf.filter_function(f))
@@ -162,46 +163,46 @@ def one_execution(prefix, plan, capacity):
     return s, obs, problems, used_capacity
 
 
-def schedule_task(plan, capacity, bound, prefixes, budget):
+def schedule_task(plan, capacity, bound, prefixes, budget, calls=2):
     """Explore the subtrees below the given schedule prefixes (at most `budget` executions; the rest is
     handed back for re-sharding)."""
     st = Stats()
     shape = '%d-threads/%s' % (len(plan), 'same-filter' if len(set(plan)) < len(plan) else 'distinct-filters')
 
     def make_run(prefix):
-        s, obs, problems, used = one_execution(prefix, plan, capacity)
-        st.case((tuple(plan), capacity, tuple(s.choices)), nontrivial=any(c != 0 for c in s.choices), outcome=obs,
+        s, obs, problems, used = one_execution(prefix, plan, capacity, calls)
+        st.case((tuple(plan), capacity, calls, tuple(s.choices)), nontrivial=any(c != 0 for c in s.choices), outcome=obs,
                 sample={'threads': plan, 'schedule': list(s.choices)[:60], 'preemptions': s.preemptions_before(len(s.choices))} if any(s.choices) else None)
         if problems:
             # determinism obligation: the same schedule must fail the same way twice
-            s2, obs2, problems2, _ = one_execution(list(s.choices), plan, capacity)
+            s2, obs2, problems2, _ = one_execution(list(s.choices), plan, capacity, calls)
             if obs2 != obs or [p[0] for p in problems2] != [p[0] for p in problems]:
                 raise HarnessError('schedule %r is not deterministic: %r vs %r' % (s.choices, problems, problems2))
             for sym, text in problems[:2]:
                 st.fail(sym, {'shape': shape, 'capacity': str(used), 'preemptions': s.preemptions_before(len(s.choices))},
-                        {'kind': 'schedule', 'plan': plan, 'capacity': capacity, 'schedule': list(s.choices)}, {'what': text})
+                        {'kind': 'schedule', 'plan': plan, 'capacity': capacity, 'calls': calls, 'schedule': list(s.choices)}, {'what': text})
         return s, obs
 
     left = sched.explore_schedules(make_run, bound, st, prefixes, budget)
-    return st, (plan, capacity, bound, left)
+    return st, (plan, capacity, bound, left, calls)
 
 
 def explore_plan_set(plans, ctx, st):
     """Rounds of budgeted subtree exploration: unexplored subtree roots are re-sharded until none is left."""
-    work = [(plan, cap, bound, [[]]) for plan, cap, bound in plans]
+    work = [(plan, cap, bound, [[]], calls) for plan, cap, bound, calls in plans]
     rounds = 0
     while work:
         rounds += 1
         tasks = []
-        for plan, cap, bound, prefixes in work:
+        for plan, cap, bound, prefixes, calls in work:
             for c in chunks(prefixes, max(1, min(len(prefixes), ctx.jobs * 2))):
-                tasks.append((plan, cap, bound, c, 1 if rounds == 1 else 40))
+                tasks.append((plan, cap, bound, c, 1 if rounds == 1 else max(40, min(400, len(c) // 4)), calls))
         seeded_rng(ctx.seed, 'c13/%d' % rounds).shuffle(tasks)
         work = []
-        for part, (plan, cap, bound, left) in pmap(schedule_task, tasks, ctx.jobs):
+        for part, (plan, cap, bound, left, calls) in pmap(schedule_task, tasks, ctx.jobs):
             st.merge(part)
             if left:
-                work.append((plan, cap, bound, left))
+                work.append((plan, cap, bound, left, calls))
         if rounds > 10000:
             raise HarnessError('schedule exploration does not converge')
     return rounds
@@ -373,16 +374,14 @@ def long_history(kind, n, laps):
 
 def run(ctx):
     st = Stats()
-    plans = [(['a', 'b and not a'], None), (['a', 'a'], None), (['a', 'b and not a'], 1), (['a', 'b and not a', 'c or a'], None), (['a', 'b and not a', 'a'], 2)]
-    bounds = []
-    todo = []
-    for plan, cap in plans:
-        if ctx.quick:
-            bound = 1 if len(plan) == 3 else (2 if cap is None and len(set(plan)) == 2 else 1)
-        else:
-            bound = 2 if len(plan) == 3 else 3
-        todo.append((plan, cap, bound))
-        bounds.append({'threads': plan, 'cache_capacity': cap or 'real', 'preemption_bound': bound})
+    # (threads, cache capacity, preemption bound, filter calls per thread)
+    if ctx.quick:
+        todo = [(['a', 'b and not a'], None, 2, 2), (['a', 'a'], None, 1, 2), (['a', 'b and not a'], 1, 1, 2),
+                (['a', 'b and not a', 'c or a'], None, 1, 2), (['a', 'b and not a', 'a'], 2, 1, 2)]
+    else:
+        todo = [(['a', 'b and not a'], None, 3, 1), (['a', 'b and not a'], None, 2, 2), (['a', 'a'], None, 2, 2), (['a', 'b and not a'], 1, 2, 2),
+                (['a', 'b and not a', 'c or a'], None, 2, 1), (['a', 'b and not a', 'c or a'], None, 1, 2), (['a', 'b and not a', 'a'], 2, 2, 1)]
+    bounds = [{'threads': plan, 'cache_capacity': cap or 'real', 'preemption_bound': bound, 'filter_calls_per_thread': calls} for plan, cap, bound, calls in todo]
     rounds = explore_plan_set(todo, ctx, st)
     L = 5 if ctx.quick else 6
     for cap in (1, 2):
@@ -419,7 +418,7 @@ def run(ctx):
 
 def replay(case, st):
     if case['kind'] == 'schedule':
-        s, obs, problems, used = one_execution(case['schedule'], case['plan'], case['capacity'])
+        s, obs, problems, used = one_execution(case['schedule'], case['plan'], case['capacity'], case.get('calls', 2))
         for sym, text in problems[:2]:
             st.fail(sym, {'capacity': str(used)}, case, {'what': text})
     elif case['kind'] == 'family':
